@@ -21,8 +21,12 @@ Misc == << T_rec(<<P("u8"), P("u64"), P("u8")>>), T_rec(<<P("u8"), P("u16"), P("
            T_var(<<P("u8"), P("f32"), P("u64"), P("string"), NoT>>),
            T_var(<<P("f64"), P("f32")>>), T_var(<<T_tup(<<P("f32"), P("f32")>>), T_tup(<<P("u64"), P("u8")>>), P("string")>>),
            T_enum(1), T_enum(2), T_enum(257),
-           T_flags(1), T_flags(8), T_flags(9), T_flags(16), T_flags(17), T_flags(32),
-           T_res(NoT, NoT), T_opt(T_opt(P("u8"))) >>
+           T_flags(1), T_flags(8), T_flags(9), T_flags(16), T_flags(17), T_flags(32), T_flags(33), T_flags(64),
+           T_res(NoT, NoT), T_opt(T_opt(P("u8"))),
+           \* variants that own heap data at a non-zero offset of their container (payload offsets relative to the variant, not the block)
+           T_tup(<<P("u32"), T_res(P("string"), P("string"))>>), T_rec(<<P("u64"), T_opt(P("string"))>>),
+           T_list(T_rec(<<P("u64"), T_opt(P("string"))>>)), T_tup(<<P("u8"), T_var(<<P("f32"), P("string")>>)>>),
+           T_rec(<<P("u8"), T_opt(T_list(P("u16"))), T_res(P("u64"), T_list(P("string")))>>) >>
 Reps == << P("u8"), P("u64"), P("f32"), P("string"), T_list(P("u8")), T_list(P("string")), T_opt(P("u32")),
            T_tup(<<P("u8"), P("u64")>>), T_var(<<P("f32"), P("string")>>), T_flags(9),
            T_res(P("string"), P("u16")), T_rec(<<P("string"), P("s16")>>), T_enum(3) >>
